@@ -35,7 +35,10 @@ class VirtualClock(object):
 class HpmDevice(object):
     """plan[i] = answer to the i-th Upload-firmware-block request received:
     ('o',) accept | ('p', k) accept as long duration command, the next k status requests still
-    say 80h | ('e', cc) reject with completion code | ('t',) no answer.  Beyond the list: accept."""
+    say 80h, then 00h | ('f', k, cc) the same, but the command then ends with the FINAL completion
+    code cc: HPM.1 reports the outcome of a long duration command in the "last completion code" of
+    Get upgrade status (00h success, anything else failure) | ('e', cc) reject with completion
+    code | ('t',) no answer.  Beyond the list: accept."""
 
     def __init__(self, plan, clock=None, lat=0):
         self.plan = list(plan)
@@ -43,6 +46,7 @@ class HpmDevice(object):
         self.lat = lat
         self.idx = 0
         self.pending = 0
+        self.final = CC_OK       # what the status reports once the long duration command has ended
         self.trace = []          # ('B', num, bytes) | ('S',) | ('X', netfn, cmd, bytes)
         self.answers = []        # completion code given to each block (None = silent)
 
@@ -54,16 +58,17 @@ class HpmDevice(object):
             item = self.plan[self.idx] if self.idx < len(self.plan) else ('o',)
             self.idx += 1
             self.trace.append(('B', data[1], data[2:]))
-            self.pending = item[1] if item[0] == 'p' else 0
+            self.pending = item[1] if item[0] in ('p', 'f') else 0
+            self.final = item[2] if item[0] == 'f' else CC_OK
             if item[0] == 't':
                 self.answers.append(None)
                 return None
-            cc = {'o': CC_OK, 'p': CC_IN_PROGRESS}.get(item[0], item[1] if len(item) > 1 else 0)
+            cc = {'o': CC_OK, 'p': CC_IN_PROGRESS, 'f': CC_IN_PROGRESS}.get(item[0], item[1] if len(item) > 1 else 0)
             self.answers.append(cc)
             return bytes([cc, PICMG_ID])
         if netfn == NETFN_GROUP_EXT and cmd == CMD_GET_UPGRADE_STATUS and data == bytes([PICMG_ID]):
             self.trace.append(('S',))
-            last = CC_IN_PROGRESS if self.pending > 0 else CC_OK
+            last = CC_IN_PROGRESS if self.pending > 0 else self.final
             self.pending = max(0, self.pending - 1)
             return bytes([CC_OK, PICMG_ID, CMD_UPLOAD_BLOCK, last])
         self.trace.append(('X', netfn, cmd, data))
@@ -107,6 +112,8 @@ def virtual_time(clock):
 
 
 def plan_token(item):
+    if item[0] == 'f':
+        return 'f%d.%d' % (item[1], item[2])
     return {'o': 'o', 't': 't'}.get(item[0]) or ('%s%d' % (item[0], item[1]))
 
 
